@@ -28,8 +28,12 @@ package file
 //@   loop#0 invariant (sliceptr(overridEd) == 0 || fresh(sliceptr(overridEd))) && sliceptr(inTags) == sliceptr(inTags$0)
 //@   loop#1 invariant (sliceptr(overridEd) == 0 || fresh(sliceptr(overridEd))) && sliceptr(inTags) == sliceptr(inTags$0)
 
+// what FindStringSubmatch returns for rComment = `@tag (.*)`: the text after the first "@tag " (trusted: the regexp's
+// submatch semantics are not modelled; the bounded stand-ins of C06/C07 exercise it on real files)
+//@ axiom [rComment.shape] forall(c String, m String :: {reSub1(rComment, c), contains(c, m)} reSub1(rComment, c) != "" ==> contains(c, "@tag " ++ reSub1(rComment, c)))
 //@ func tagFromComment
 //@   modifies nothing
+//@   ensures [C06 C07 C19 comment.marker] tag != "" ==> contains(comment, "@tag " ++ tag)
 
 //@ func injectTag
 //@   requires [C06 C19 inject.span] area.in(area, len(contents))
@@ -49,6 +53,7 @@ package file
 //@   loop#1 entered_when [C06 parse.enter] itag(decl) == tagof("*go/ast.GenDecl")
 //@   loop#2 entered_when [C06 parse.enter] itag(spec) == tagof("*go/ast.TypeSpec") && itag(typeSpec.Type) == tagof("*go/ast.StructType")
 //@   loop#3 entered_when [C06 parse.enter] field.Tag != nil
+//@   at call Pos#0 reached_when [C06 parse.area] tag != ""
 //@   loop#0 invariant f != nil && astnode(f) && err == nil && (sliceptr(areas) == 0 || (fresh(sliceptr(areas)) && !astnode(sliceptr(areas)))) && areas.ok(areas, len(fs.content(inputPath)))
 //@   loop#0 invariant ast.wf(1, 1 + len(fs.content(inputPath))) && areas.below(areas, ite(rangeindex >= 0, nend(unbox("Int", f.Decls[rangeindex])), 1))
 //@   loop#1 invariant f != nil && astnode(f) && err == nil && genDecl != nil && astnode(genDecl) && (sliceptr(areas) == 0 || (fresh(sliceptr(areas)) && !astnode(sliceptr(areas)))) && areas.ok(areas, len(fs.content(inputPath)))
